@@ -500,6 +500,127 @@ class Streams:
             xn = bt.integrate((xh @ n) * function.J(xh), degree=self.gauss_degree(z, needed + 1))
             self.judge('boundary-x.n', relerr(xn, d * float(vol)), 'the boundary integral of x.n (refined-basis geometry) differs from dim times the exact volume', rep)
 
+    # ------------------------------------------------------------ geometry on a basis of topo.refined^k, operators on strictly finer levels
+    TAIL_SIG = 'transformlinear:target-tail-ignored'
+
+    def tail_probe(self, coarse, fine, nprobe=4):
+        """mechanism probe for `TransformLinear(target=coarse.transforms, source=fine.transforms, index)`: its value (simplified and as
+        compiled) must be the linear part of the chain *relative to the target*, i.e. the product of the linear parts of the items
+        that follow the coarse element's chain.  Specification from the transform items themselves (exact dyadic floats).
+        Returns the list of (index, simplified, compiled, wanted, folded value == linear part of the full chain) that disagree."""
+        from nutils import evaluable as ev
+        c, rng = self.c, self.rng
+        bad = []
+        idx = sorted(rng.sample(range(len(fine)), min(nprobe, len(fine))))
+        for i in idx:
+            chain = fine.transforms[i]
+            want = None
+            for n in range(len(chain), 0, -1):
+                try:
+                    coarse.transforms.index(chain[:n])
+                except Exception:
+                    continue
+                want = numpy.eye(chain[n - 1].fromdims)
+                for item in chain[n:]:
+                    want = want @ numpy.asarray(item.linear, dtype=float)
+                full = numpy.eye(chain[0].todims)
+                for item in chain:
+                    full = full @ numpy.asarray(item.linear, dtype=float)
+                break
+            if want is None:
+                c.count('refined-target:tail-probe-no-prefix'); continue
+            node = ev.TransformLinear(coarse.transforms, fine.transforms, ev.constant(i))
+            got_s = numpy.asarray(ev.eval_once(node))
+            got_c = numpy.asarray(ev.eval_once(node, _simplify=False, _optimize=False))
+            c.count('refined-target:tail-probe')
+            if got_s.shape != want.shape or got_c.shape != want.shape or abs(got_s - want).max() > 1e-12 or abs(got_c - want).max() > 1e-12:
+                # "tail ignored": the folded value is the linear part of the whole chain (from the root) instead of the part relative to the target
+                ignored = got_s.shape == full.shape and abs(got_s - full).max() <= 1e-12 and abs(full - want).max() > 1e-12
+                bad.append((i, got_s.tolist(), got_c.tolist(), want.tolist(), bool(ignored)))
+        return bad
+
+    def refined_target_core(self):
+        """deterministic core of `refined_target`: every non-product 1-D / 2-D entry, affine geometry on a basis of `topo.refined`"""
+        for z in self.zoo:
+            if not z.spaces and z.d <= 2:
+                self.refined_target(z, 'affine', k=1)
+
+    def refined_target(self, z, kind, k=None):
+        """the geometry is represented exactly in the std basis of `topo.refined^k` (k = 0, 1), while J, grad and the normal are evaluated
+        on the strictly finer `topo.refined^(k+1)` (sometimes `^(k+2)`) and its boundary: the coordinate system in which the geometry
+        is differentiated (the `target` of TransformLinear / TransformCoords / TransformBasis) is a strict ancestor of every chain of
+        the sample, so exactly the tail of the chain relative to that ancestor must enter J, grad and the normal."""
+        from nutils import function
+        c, rng, d = self.c, self.rng, z.d
+        if z.spaces or ':' in z.name: return
+        k = rng.choice([0, 1, 1]) if k is None else k
+        limit = 260 if c.tier == 'quick' else 1200
+        try:
+            coarse = z.topo
+            for _ in range(k): coarse = coarse.refined
+            fine = coarse.refined
+            if len(fine) * 2 ** d <= limit and rng.random() < .35: fine = fine.refined
+            nfine = len(fine)
+        except Exception as e:
+            c.count('refined-target-unavailable:' + type(e).__name__); return
+        if nfine > limit:
+            c.count('refined-target-skipped-size'); return
+        maps, sign = random_map(rng, d, kind)
+        degree = 1 if kind == 'affine' and rng.random() < .6 else 2
+        try:
+            basis = coarse.basis('std', degree=degree)
+        except Exception as e:
+            c.count('refined-target-basis-unavailable:' + type(e).__name__); return
+        if len(basis) > (90 if c.tier == 'quick' else 200):
+            c.count('refined-target-skipped-size'); return
+        x0 = z.x0
+        xc = numpy.stack([m.nutils(x0) for m in maps])
+        M, rhs = coarse.integrate([basis[:, None] * basis[None, :] * function.J(x0), basis[:, None] * xc[None, :] * function.J(x0)], degree=2 * degree + 2)
+        M = M.export('dense') if hasattr(M, 'export') else M
+        cx = numpy.linalg.solve(M, rhs)
+        xh = basis @ cx
+        p = P.random(rng, d, rng.choice([2, 3]))
+        ph = p.nutils(xh)
+        ex = dict(x0=x0, dx=xh - xc, grad=function.grad(ph, xh), J=function.J(xh), J0=function.J(x0),
+                  g_hc=function.grad(ph, xc), g_ch=function.grad(p.nutils(xc), xh))      # field and geometry in different charts
+        vals = dict(zip(ex, fine.sample('gauss', 2).eval(list(ex.values()))))
+        if abs(vals['dx']).max() > 1e-11:
+            c.count('refined-target-projection-inexact'); return
+        tail_bad = self.tail_probe(coarse, fine)
+        nbad_before = sum(self.bad.values())
+        def mech(generic):
+            return self.TAIL_SIG if any(t[4] for t in tail_bad) else generic
+        depth = 'refined^%d on refined^%d' % (k, k + (2 if nfine > len(coarse) * 2 ** d else 1))
+        c.case(('refined-target', z.name, k, nfine, repr(maps), repr(p)), nontrivial=True)
+        c.count('refined-target:' + z.family + ':' + depth.replace(' ', '-') + ':' + kind)
+        rep = dict(self.describe(z, maps, field=p, basis_degree=degree, ndofs=len(basis)), stream='refined_target', basis_on='topo' + '.refined' * k, sampled_on=depth,
+                   tail_probe=tail_bad[:2])
+        X0 = vals['x0']; X = numpy.stack([m(X0) for m in maps], -1)
+        gp = numpy.stack([p.deriv(i)(X) for i in range(d)], -1)
+        Jm = jac_at(maps, X0)
+        self.judge(mech('jacobian-multiplicative'), relerr(vals['J'] / vals['J0'], abs(numpy.linalg.det(Jm))),
+                   'J of a geometry on a basis of %s evaluated on a finer level differs from |det dx/dx0| J(x0)' % rep['basis_on'], dict(rep, operator='J'))
+        self.judge(mech('grad-wrt-geometry'), relerr(vals['grad'], gp), 'function.grad w.r.t. a geometry on a basis of %s evaluated on a finer level differs from the formal derivative' % rep['basis_on'], dict(rep, operator='grad'))
+        self.judge(mech('grad-wrt-geometry'), relerr(vals['g_hc'], gp), 'function.grad of a field on a basis of %s w.r.t. the coarse geometry, evaluated on a finer level, differs from the formal derivative' % rep['basis_on'], dict(rep, operator='grad (field on the basis, coarse geometry)'))
+        self.judge(mech('grad-wrt-geometry'), relerr(vals['g_ch'], gp), 'function.grad of a coarse field w.r.t. a geometry on a basis of %s, evaluated on a finer level, differs from the formal derivative' % rep['basis_on'], dict(rep, operator='grad (coarse field, geometry on the basis)'))
+        bt = fine.boundary
+        nv, Jb, Jb0, X0b = bt.sample('gauss', 2).eval([function.normal(xh), function.J(xh), function.J(x0), x0])
+        nu0, valid = self.face_normals(X0b, d)
+        Jmb = jac_at(maps, X0b)
+        raw = numpy.einsum('qji,qj->qi', numpy.linalg.inv(Jmb), nu0); nrm = numpy.linalg.norm(raw, axis=-1)
+        self.judge(mech('normal-outward-orthogonal'), relerr(nv[valid], (raw / nrm[:, None])[valid]), 'the boundary normal of a geometry on a basis of %s evaluated on the boundary of a finer level differs from the outward unit normal' % rep['basis_on'], dict(rep, operator='normal'))
+        self.judge(mech('jacobian-boundary'), relerr((Jb / Jb0)[valid], (abs(numpy.linalg.det(Jmb)) * nrm)[valid]), 'the boundary measure of a geometry on a basis of %s on the boundary of a finer level is wrong' % rep['basis_on'], dict(rep, operator='J (boundary)'))
+        det = jacobian_det(maps)
+        vol = sign * det.integrate_box()
+        needed = d * (max(m.degree() for m in maps) - 1) + 1
+        if needed <= 7 or not z.simplex:
+            got = fine.integrate(function.J(xh), degree=self.gauss_degree(z, needed))
+            self.judge(mech('integral-invariance'), relerr(got, float(vol)), 'the integral of J of a geometry on a basis of %s over a finer level differs from the exact volume' % rep['basis_on'], rep)
+        if tail_bad and nbad_before == sum(self.bad.values()):
+            # the node evaluates to the wrong linear map although no operator above showed it: correspondence broken, no failing operator input
+            i, got_s, got_c, want, _ = tail_bad[0]
+            self.c._deferred.append(('corr:transformlinear-tail', 'TransformLinear(target=%s, source=finer level, index=%d) evaluates to %s (simplified) / %s (compiled); the chain relative to the target has linear part %s' % (rep['basis_on'], i, got_s, got_c, want), rep))
+
     # ------------------------------------------------------------ refinement / parametrisation independence on identical physical points
     def reparam(self, kind):
         """the same physical field on two parametrisations of the unit square: x = Φ(x0) on `rect` and x = Φ(Ψ(y0)) with the
